@@ -502,6 +502,22 @@ var c13Muts = []c13Mut{
 		d.dirs = append(d.dirs, sDirUse{name: "limit", args: [][2]string{{"max", "null"}}})
 		return "limit"
 	}},
+	// well-formed: one directive applied to two arguments of another, and a diamond of argument directives — no loop
+	{"V-directive-on-two-arguments-of-a-directive", func(r *Rng, s *sSet) string {
+		s.defs = append(s.defs,
+			&sDef{kind: "directive", name: "dep", locs: []string{"ARGUMENT_DEFINITION", "INPUT_FIELD_DEFINITION"}},
+			&sDef{kind: "directive", name: "two", locs: []string{"OBJECT"}, dirArgs: []*sArg{{name: "a", t: named("Int"), dirs: []sDirUse{{name: "dep"}}}, {name: "b", t: named("Int"), dirs: []sDirUse{{name: "dep"}}}}})
+		return "two"
+	}},
+	{"V-directive-diamond", func(r *Rng, s *sSet) string {
+		locs := []string{"ARGUMENT_DEFINITION", "INPUT_FIELD_DEFINITION"}
+		s.defs = append(s.defs,
+			&sDef{kind: "directive", name: "leaf", locs: locs},
+			&sDef{kind: "directive", name: "lft", locs: locs, dirArgs: []*sArg{{name: "p", t: named("Int"), dirs: []sDirUse{{name: "leaf"}}}}},
+			&sDef{kind: "directive", name: "rgt", locs: locs, dirArgs: []*sArg{{name: "p", t: named("Int"), dirs: []sDirUse{{name: "leaf"}}}}},
+			&sDef{kind: "directive", name: "top", locs: []string{"OBJECT"}, dirArgs: []*sArg{{name: "a", t: named("Int"), dirs: []sDirUse{{name: "lft"}}}, {name: "b", t: named("Int"), dirs: []sDirUse{{name: "rgt"}}}}})
+		return "top"
+	}},
 	{"R10-uncoercible-directive-argument-on-type", func(r *Rng, s *sSet) string {
 		s.defs = append(s.defs, &sDef{kind: "directive", name: "mark", locs: []string{"OBJECT", "FIELD_DEFINITION"}, dirArgs: []*sArg{{name: "n", t: named("Int")}}})
 		d := s.pick(r, "object")
